@@ -96,7 +96,7 @@ Proof. intro H. unfold out_of_range. rewrite H. reflexivity. Qed.
 Lemma cands_defined a : all_def a = true -> cands a = [addr_val a].
 Proof.
   induction a as [|b r IH]; cbn [cands addr_val all_def forallb]; auto. intro H. apply andb_prop in H as [Hb Hr].
-  rewrite (IH Hr). cbn [flat_map app]. destruct b; try discriminate; cbn [bit_val N.b2n]; f_equal; lia.
+  rewrite (IH Hr). cbn [flat_map app]. destruct b; try discriminate; cbn [bit_val N.b2n app]; f_equal; lia.
 Qed.
 
 Lemma cands_common a a' : bv_compat a a' -> exists n, In n (cands a) /\ In n (cands a').
@@ -207,7 +207,7 @@ Proof.
     cbn [can_collide all_def forallb] in *; try discriminate.
   apply andb_prop in Hwa as [Hb Hwa]. apply andb_prop in H1 as [Hc1 H1].
   destruct (compatb b y) eqn:E; cbn [andb] in H2.
-  - rewrite (IH wa Hwa H1 H2). apply andb_false_r.
+  - pose proof (IH wa Hwa H1 H2) as E0. unfold all_def in E0. rewrite E0. apply andb_false_r.
   - destruct b, x, y; unfold compat in Hxy; cbn in *; try discriminate; auto;
       exfalso; destruct Hxy as [H|[H|H]]; discriminate.
 Qed.
@@ -349,6 +349,7 @@ Qed.
 Lemma replace_nth_wf w n x m : mem_wf w m -> length x = w -> mem_wf w (replace_nth n x m).
 Proof.
   intros Hm Hx. revert n; induction Hm as [|y r Hy Hr IH]; intros [|n]; simpl; constructor; auto.
+  apply IH.
 Qed.
 
 Lemma replace_nth_compat n x y m m' : Forall2 bv_compat m m' -> bv_compat x y ->
@@ -358,8 +359,9 @@ Proof. intros H Hxy. revert n; induction H; intros [|n]; simpl; constructor; aut
 Lemma replace_nth_X_compat w n m m' : Forall2 bv_compat m m' -> mem_wf w m' ->
   Forall2 bv_compat (replace_nth n (all_X w) m) m'.
 Proof.
-  intros H Hw. revert n; induction H as [|x y m m' Hxy Hm IH]; intros [|n]; simpl; auto;
-    inversion Hw; subst; constructor; auto. apply all_X_compat; assumption.
+  intros H. revert n; induction H as [|x y m m' Hxy Hm IH]; intros n Hw; [destruct n; constructor|].
+  inversion Hw as [|? ? Hy Hw']; subst. destruct n as [|n]; simpl; constructor; auto.
+  apply all_X_compat; reflexivity.
 Qed.
 
 Lemma nuke_compat m m' : Forall2 bv_compat m m' -> Forall2 bv_compat (map (fun x => all_X (length x)) m) m'.
@@ -437,7 +439,7 @@ Lemma eval_ports_compat c m m' :
   forall ps ins ins' st st',
   st_rel (c_width c) st st' ->
   Forall (pin_wf c) ins -> Forall (pin_wf c) ins' -> Forall2 pin_compat ins ins' ->
-  Forall2 ocompat_bv (fst (eval_ports c m st ps ins)) (fst (eval_ports c m' st' ps ins')) /  st_rel (c_width c) (snd (eval_ports c m st ps ins)) (snd (eval_ports c m' st' ps ins')).
+  Forall2 ocompat_bv (fst (eval_ports c m st ps ins)) (fst (eval_ports c m' st' ps ins')) /\ st_rel (c_width c) (snd (eval_ports c m st ps ins)) (snd (eval_ports c m' st' ps ins')).
 Proof.
   intros Hm Hm' Hmm. induction ps as [|pt ps IH]; intros ins ins' st st' Hst Hw Hw' Hc.
   - simpl. auto.
@@ -460,7 +462,7 @@ Qed.
 Lemma commits_compat c : forall ls ls' m m',
   Forall2 (latch_rel (c_width c)) ls ls' ->
   mem_wf (c_width c) m -> mem_wf (c_width c) m' -> Forall2 bv_compat m m' ->
-  Forall2 bv_compat (fold_left (mem_commit c) ls m) (fold_left (mem_commit c) ls' m') /  mem_wf (c_width c) (fold_left (mem_commit c) ls m) /\ mem_wf (c_width c) (fold_left (mem_commit c) ls' m').
+  Forall2 bv_compat (fold_left (mem_commit c) ls m) (fold_left (mem_commit c) ls' m') /\ mem_wf (c_width c) (fold_left (mem_commit c) ls m) /\ mem_wf (c_width c) (fold_left (mem_commit c) ls' m').
 Proof.
   intros ls ls' m m' H. revert m m'. induction H as [|l l' ls ls' Hl Hls IH]; intros m m' Hm Hm' Hmm; simpl; auto.
   pose proof Hl as (_ & Hd & Hd' & _).
@@ -470,7 +472,7 @@ Qed.
 Lemma cycle_compat_proof : forall c ps m m' ins ins',
   mem_wf (c_width c) m -> mem_wf (c_width c) m' -> Forall2 bv_compat m m' ->
   Forall (pin_wf c) ins -> Forall (pin_wf c) ins' -> Forall2 pin_compat ins ins' ->
-  Forall2 ocompat_bv (fst (cycle c ps m ins)) (fst (cycle c ps m' ins')) /  Forall2 bv_compat (snd (cycle c ps m ins)) (snd (cycle c ps m' ins')) /  mem_wf (c_width c) (snd (cycle c ps m ins)) /\ mem_wf (c_width c) (snd (cycle c ps m' ins')).
+  Forall2 ocompat_bv (fst (cycle c ps m ins)) (fst (cycle c ps m' ins')) /\ Forall2 bv_compat (snd (cycle c ps m ins)) (snd (cycle c ps m' ins')) /\ mem_wf (c_width c) (snd (cycle c ps m ins)) /\ mem_wf (c_width c) (snd (cycle c ps m' ins')).
 Proof.
   intros c ps m m' ins ins' Hm Hm' Hmm Hw Hw' Hc. unfold cycle.
   assert (H0 : st_rel (c_width c) ps_init ps_init) by (split; constructor).
@@ -483,15 +485,15 @@ Lemma run_compat_proof : forall c ps cycles cycles' m m',
   mem_wf (c_width c) m -> mem_wf (c_width c) m' -> Forall2 bv_compat m m' ->
   Forall (Forall (pin_wf c)) cycles -> Forall (Forall (pin_wf c)) cycles' ->
   Forall2 (Forall2 pin_compat) cycles cycles' ->
-  Forall2 (Forall2 ocompat_bv) (fst (run c ps m cycles)) (fst (run c ps m' cycles')) /  Forall2 bv_compat (snd (run c ps m cycles)) (snd (run c ps m' cycles')).
+  Forall2 (Forall2 ocompat_bv) (fst (run c ps m cycles)) (fst (run c ps m' cycles')) /\ Forall2 bv_compat (snd (run c ps m cycles)) (snd (run c ps m' cycles')).
 Proof.
   intros c ps cycles cycles' m m' Hm Hm' Hmm Hw Hw' Hc. revert m m' Hm Hm' Hmm Hw Hw'.
   induction Hc as [|ins ins' cs cs' Hi Hcs IH]; intros m m' Hm Hm' Hmm Hw Hw'; simpl; auto.
-  inversion Hw; inversion Hw'; subst.
-  destruct (cycle_compat_proof c ps m m' ins ins' Hm Hm' Hmm ltac:(assumption) ltac:(assumption) Hi) as (H1 & H2 & H3 & H4).
+  inversion Hw as [|? ? Hwi Hws]; inversion Hw' as [|? ? Hwi' Hws']; subst.
+  destruct (cycle_compat_proof c ps m m' ins ins' Hm Hm' Hmm Hwi Hwi' Hi) as (G1 & G2 & G3 & G4).
   destruct (cycle c ps m ins) as [rds m1]. destruct (cycle c ps m' ins') as [rds' m1'].
   cbn [fst snd] in *.
-  specialize (IH m1 m1' H3 H4 H2 ltac:(assumption) ltac:(assumption)).
+  specialize (IH m1 m1' G3 G4 G2 Hws Hws').
   destruct (run c ps m1 cs) as [o m2]. destruct (run c ps m1' cs') as [o' m2'].
   cbn [fst snd] in *. destruct IH. split; auto.
 Qed.
